@@ -431,7 +431,11 @@ func c05PanicSite(stack string) string {
 		if j := strings.Index(loc, " +0x"); j >= 0 {
 			loc = loc[:j]
 		}
-		for _, pre := range []string{"/repo/", "/pkg/mod/", "/go-1.23/src/", "/go/src/"} {
+		pres := []string{"/repo/", "/pkg/mod/", "/go-1.23/src/", "/go/src/"}
+		if alt := os.Getenv("VERIF_REPO"); alt != "" && alt != "/repo" {
+			pres = append([]string{strings.TrimSuffix(alt, "/") + "/"}, pres...)
+		}
+		for _, pre := range pres {
 			if k := strings.Index(loc, pre); k >= 0 {
 				loc = loc[k+len(pre):]
 			}
